@@ -21,6 +21,19 @@ def acceptsOf (kinds : List String) : Val → Bool
   | .int _ => kinds.contains "int" || kinds.contains "any"
   | .str _ => kinds.contains "str" || kinds.contains "any"
 
+/-- wiring of one component after `LK.Cfg.resolve` (the function the C02/C13 default-resolution theorems are about): parameters are
+    named `p0, p1, …`, nodes `n<k>`; explicit sources win, a builder default of the parameter's name fills an unwired one -/
+def resolvedSrcs (srcs : List (Option Nat)) (defaults : List (String × Nat)) : List (Option Nat) :=
+  let names := (List.range srcs.length).map (fun j => s!"p{j}")
+  let explicit : List (String × String) := (names.zip srcs).filterMap (fun ns => ns.2.map (fun k => (ns.1, s!"n{k}")))
+  let bc : LK.Cfg.BComp := LK.Cfg.BComp.mk "" "" none names explicit
+  let wired := LK.Cfg.resolve (defaults.map (fun nk => (nk.1, s!"n{nk.2}"))) bc
+  names.map (fun n => (wired.find? (·.1 == n)).bind (fun e => (e.2.drop 1).toNat?))
+
+def paramOfWith (src : Option Nat) (j : Json) : Except String Param := do
+  let kinds ← (← getArr j "accepts").mapM (·.getStr?)
+  pure { lzy := ← getBool j "lzy", acceptsNone := ← getBool j "acceptsNone", accepts := acceptsOf kinds, src := src }
+
 def paramOf (j : Json) : Except String Param := do
   let kinds ← (← getArr j "accepts").mapM (·.getStr?)
   let src := match getOpt j "src" with | some v => v.getNat?.toOption | none => none
@@ -53,14 +66,17 @@ def dsl (op : String) (k : Int) : (List Val → Option Nat) × (List Val → Opt
         | _, _ => .error .type)
   | _ => (fun _ => none, fun _ _ => .error .runtime)
 
-def nodeOf (j : Json) : Except String Node := do
+def nodeOf (defaults : List (String × Nat)) (j : Json) : Except String Node := do
   match ← getStr j "kind" with
   | "input" =>
     let kinds ← (← getArr j "accepts").mapM (·.getStr?)
     pure (.input (← getBool j "acceptsNone") (acceptsOf kinds))
   | "literal" => pure (.literal (← valOf (← j.getObjVal? "value")))
   | "comp" =>
-    let ps ← (← getArr j "params").mapM paramOf
+    let pjs ← getArr j "params"
+    let raw := pjs.map (fun pj => match getOpt pj "src" with | some v => v.getNat?.toOption | none => none)
+    let srcs := if defaults.isEmpty then raw else resolvedSrcs raw defaults
+    let ps ← (pjs.zip srcs).mapM (fun (pj, s) => paramOfWith s pj)
     let op ← getStr j "op"
     let k := (getInt j "k").toOption.getD 0
     let (sel, fin) := dsl op k
@@ -72,7 +88,13 @@ def errToJson : Err → Json
   | .fuel => "fuel" | .comp t => Json.str s!"comp{t}"
 
 def run (args : Json) : Except String Json := do
-  let nodes ← (← getArr args "nodes").mapM nodeOf
+  let defaults : List (String × Nat) ← match getOpt args "defaults" with
+    | some d => (← d.getArr?).toList.mapM (fun e => do
+        match (← e.getArr?).toList with
+        | [n, k] => pure (← n.getStr?, ← k.getNat?)
+        | _ => throw "bad default")
+    | none => pure []
+  let nodes ← (← getArr args "nodes").mapM (nodeOf defaults)
   let g : Graph := { node := fun n => nodes.getD n (.literal .none) }
   let inputs ← (← getArr args "inputs").mapM valOf
   let ι : Nat → Val := fun n => inputs.getD n .none
